@@ -879,6 +879,14 @@ func toString(val interface{}) (string, error) {
 		// quotes around data.
 		return strconv.FormatFloat(rv.Float(), 'f', 0, 64), nil
 	}
+	switch rv.Kind() {
+	case reflect.Invalid, reflect.Map:
+		return "", fmt.Errorf("cannot coerse '%T' to string", val)
+	case reflect.Slice, reflect.Array:
+		if rv.Type().Elem().Kind() != reflect.Uint8 {
+			return "", fmt.Errorf("cannot coerse '%T' to string", val)
+		}
+	}
 	return fmt.Sprintf("%v", val), nil
 }
 
